@@ -311,6 +311,19 @@ func DoEcDh(localPrivate []byte, remotePublic *EcPoint, ec elliptic.Curve) *EcPo
 	return &point
 }
 
+// EcDhSharedSecret returns the ECDH shared secret for key derivation: the x-coordinate as an
+// octet string of fixed length (the field size), as required by ICAO 9303-11 / TR-03111 (FE2OS).
+// NB big.Int.Bytes() would drop leading zero octets, which yields different session keys
+// than the chip derives for about 1 in 256 key agreements.
+func EcDhSharedSecret(point *EcPoint, ec elliptic.Curve) []byte {
+	out := make([]byte, (ec.Params().BitSize+7)/8)
+	if point.X.BitLen() > len(out)*8 {
+		// not a field element of this curve - fall back to the minimal encoding
+		return point.X.Bytes()
+	}
+	return point.X.FillBytes(out)
+}
+
 func RsaDecryptWithPublicKey(ciphertext []byte, publicKey RsaPublicKey) ([]byte, error) {
 	if len(ciphertext) < 1 {
 		return nil, fmt.Errorf("[RsaDecryptWithPublicKey] ciphertext too short (len:%01d)", len(ciphertext))
